@@ -1,12 +1,25 @@
 #!/bin/sh
-# Builds the whole framework offline from files on disk: Lean library (models, lemmas,
-# property theorems), native model drivers, Go harness + factgen.
-set -e
+# Builds the whole framework offline from files on disk: Go harness binaries (one per model
+# group, linked against /repo), regenerated facts, Lean library (models, lemmas, property
+# theorems) and the native model drivers.  Individual Lean targets that fail are reported but
+# do not abort setup: every ./check run rebuilds what it needs and reports a failure itself.
 cd "$(dirname "$0")"
 export GOFLAGS=-mod=mod GOPROXY=off GOSUMDB=off GOTOOLCHAIN=local CGO_ENABLED=0
 mkdir -p evidence replays tmp harness/bin
 cp /repo/go.sum harness/go.sum 2>/dev/null || true
-(cd harness && go build -o bin/ ./cmd/factgen ./cmd/corr)
-./harness/bin/factgen -repo /repo -out lean/GIV/Gen >/dev/null
-(cd lean && lake build)
+(cd harness && go build -o bin/ ./cmd/...) || echo "setup: some harness binaries failed to build"
+for g in harness/cmd/*/; do g=$(basename "$g"); [ -x harness/bin/$g ] && ./harness/bin/$g factgen -repo /repo -out lean/GIV/Gen >/dev/null; done
+targets=$(python3 - <<'PY'
+import json
+p = json.load(open("props.json"))
+t = []
+for k, c in sorted(p.items()):
+    if c.get("driver") and c["driver"] not in t: t.append(c["driver"])
+    m = c.get("props_module", "GIV.Props." + k)
+    if m not in t: t.append(m)
+print(" ".join(t))
+PY
+)
+cd lean
+for t in $targets; do lake build $t >/dev/null 2>&1 || echo "setup: lake build $t failed"; done
 echo setup done
